@@ -64,6 +64,8 @@ class FakeClock:
         return v
 
     def sleep(self, d):
+        if d < 0:
+            raise ValueError("sleep length must be non-negative")     # as the real time.sleep
         ov = self.ovs[self.j] if self.j < len(self.ovs) else 0
         self.j += 1
         self.log.append(("s", sc(d)))
@@ -103,7 +105,10 @@ def run_tymer(case):
     kw = {}
     if w is not None:
         kw["tymth"] = ts[w].tymen()
-    tm = tyming.Tymer(duration=un(dur), start=un(start), **kw)
+    try:
+        tm = tyming.Tymer(duration=un(dur), start=un(start), **kw)
+    except TypeError:
+        return (("stuck",),)       # the constructor never raises in the model / the reference: the oracle reports it
 
     def snap(ret):
         return (ret, _val(lambda: tm.duration), _val(lambda: tm.elapsed), _val(lambda: tm.remaining), _val(lambda: tm.expired))
@@ -112,26 +117,24 @@ def run_tymer(case):
     for op in ops:
         k = op[0]
         ret = None
-        if k == "tyme":
-            ts[op[1]].tyme = un(op[2])
-        elif k == "tick":
-            ts[op[1]].tick()
-        elif k == "start":
-            if op[2] is None and tm.tymth is None:
-                # precondition of the model: start() at the current tyme needs a wound tymer (None + float in the code)
-                try:
-                    tm.start(duration=un(op[1]))
-                except TypeError:
-                    out.append(("stuck",))
-                    return tuple(out)
-                raise core.Infra("unwound start() did not raise")
-            ret = sc(tm.start(duration=un(op[1]), start=un(op[2])))
-        elif k == "restart":
-            ret = sc(tm.restart(duration=un(op[1])))
-        elif k == "wind":
-            tm.wind(ts[op[1]].tymen())
-        else:
-            raise core.Infra(f"bad tymer op {op!r}")
+        try:
+            if k == "tyme":
+                ts[op[1]].tyme = un(op[2])
+            elif k == "tick":
+                ts[op[1]].tick()
+            elif k == "start":
+                ret = sc(tm.start(duration=un(op[1]), start=un(op[2])))
+            elif k == "restart":
+                ret = sc(tm.restart(duration=un(op[1])))
+            elif k == "wind":
+                tm.wind(ts[op[1]].tymen())
+            else:
+                raise core.Infra(f"bad tymer op {op!r}")
+        except TypeError:
+            # the only place the model has this: start() at the current tyme on a tymer that is not wound (None + float);
+            # the trace stops there.  Anywhere else the oracle reports it.
+            out.append(("stuck",))
+            return tuple(out)
         out.append(snap(ret))
     return tuple(out)
 
@@ -162,9 +165,13 @@ def oracle_tymer(case, obs):
             if x is not (now >= rstart + rdur):
                 bad.add("tymer-expired")
 
+    if obs[0] == ("stuck",):
+        return ["tymer-constructor-raised"]
     chk(obs[0])
     for op, o in zip(ops, obs[1:]):
         if o == ("stuck",):
+            if not (op[0] == "start" and op[2] is None and w is None):
+                bad.add("tymer-op-raised")
             break
         k = op[0]
         if k == "tyme":
@@ -407,10 +414,10 @@ def gen_mono(rng):
         elif r < 0.72:
             ops.append(("duration",))
         elif r < 0.86:
-            ops.append(("restart", rng.choice([None, None, None, rng.randint(0, 30) * grid])))
+            ops.append(("restart", rng.choice([None, None, None, None, rng.randint(0, 30) * grid, 0])))
         else:
             s = None if rng.random() < 0.75 else base + rng.randint(-40, 40) * grid
-            ops.append(("start", rng.choice([None, None, rng.randint(0, 30) * grid]), s))
+            ops.append(("start", rng.choice([None, None, rng.randint(0, 30) * grid, 0]), s))
     need = 2 + len(ops)
     incs = gen_incs(rng, need if rng.random() < 0.9 else rng.randint(0, need), grid)
     # a backward step exactly at a start() (between the previous reading and the reading start() takes)
@@ -478,6 +485,8 @@ def run_pace(case):
                 end = "notdone"
         except Exhausted:
             end = "exhausted"
+        except Exception as ex:      # the run itself raised (e.g. time.sleep(negative) -> ValueError)
+            end = "raised-" + type(ex).__name__
     log = clock.log
     if i_run is None:
         return (tuple(log), (), end, None)
@@ -489,8 +498,8 @@ def oracle_pace(case, obs):
     elapsed real time = sum of the non-negative increments over ALL readings (timer's and anybody's);
     never-early: cycle k >= 1 begins only when elapsed real time >= k * tock (tock = the scheduler's tock at do());
     lossless: whatever happened in earlier cycles, the wait before cycle k+1 aims at deadline (k+1) * tock in the
-    monotone coordinates the timer can see (its own readings): it never asks to sleep beyond that deadline, and it
-    sleeps to it exactly (so no lateness is carried over)."""
+    monotone coordinates the timer can see (its own readings): it never asks to sleep beyond that deadline (so no
+    lateness is carried over)."""
     _, base, incs, ovs, tock0, pre, n, xs = case
     prelog, run, end, tock_run = obs
     bad = set()
@@ -531,12 +540,10 @@ def oracle_pace(case, obs):
             want = max(0, (k + 1) * tock - Ev)
             if d > want:
                 bad.add("lossless-sleeps-past-deadline")
-            elif d < want:
-                bad.add("lossless-sleep-short-of-deadline")
-    if end == "done" and cycles != n:
-        bad.add("cycle-count")
-    if end == "notdone":
-        bad.add("run-not-done")
+            # d < want is not a violation of the property (the loop re-checks and sleeps again); the model theorem
+            # proves equality and the correspondence compares the exact value.
+    if end.startswith("raised"):
+        bad.add("run-raised")
     return sorted(bad)
 
 
@@ -547,7 +554,7 @@ def gen_pace(rng):
     pre = []
     r = rng.random()
     if r < 0.35:
-        pre.append(("tock", rng.choice([rng.randint(0, 12) * grid, rng.randint(1, 64) * grid, 16, 64, 128])))
+        pre.append(("tock", rng.choice([rng.randint(0, 12) * grid, rng.randint(1, 64) * grid, 16, 64, 128, 0])))
     if rng.random() < 0.3:
         pre.insert(rng.randint(0, len(pre)), ("peek",))
     if rng.random() < 0.1:
